@@ -32,16 +32,19 @@ Definition twoUmin (n1 : nat) (Tr : list nat) : Z := - (Z.of_nat n1 * Z.of_nat n
 (* ---------- tied case: cumulative counts A_k(n1, 2U) (udist.go:167-299) ---------- *)
 Definition zrange (lo hi : Z) : list Z := map (fun i => lo + Z.of_nat i) (seq 0 (Z.to_nat (hi - lo + 1))).
 
-(* K == 2 closed form (udist.go:263-273), floor division (repair of D1) *)
+(* K == 2 closed form (udist.go:263-273), floor division (repair of D1).
+   r2 runs from r2Low = max(0, n1-t0) to r2High; Choose is 0 outside 0..n. *)
+Definition base2_term (t0 t1 n1 r2 : nat) : Z :=
+  choose (Z.of_nat t0) (Z.of_nat n1 - Z.of_nat r2) * choose (Z.of_nat t1) (Z.of_nat r2).
 Definition base2 (t0 t1 n1 : nat) (w : Z) : Z :=
-  let r2Low := Z.max 0 (Z.of_nat n1 - Z.of_nat t0) in
+  let r2Low := (n1 - t0)%nat in
   let r2High := (w - Z.of_nat n1 * (Z.of_nat t0 - Z.of_nat n1)) / (Z.of_nat t0 + Z.of_nat t1) in
-  zsum (fun r2 => choose (Z.of_nat t0) (Z.of_nat n1 - r2) * choose (Z.of_nat t1) r2) (zrange r2Low r2High).
+  zsum (base2_term t0 t1 n1) (seq r2Low (Z.to_nat (r2High + 1 - Z.of_nat r2Low))).
 (* the pinned tree's version: Go's "/" truncates toward zero (defect D1) *)
 Definition base2_trunc (t0 t1 n1 : nat) (w : Z) : Z :=
-  let r2Low := Z.max 0 (Z.of_nat n1 - Z.of_nat t0) in
+  let r2Low := (n1 - t0)%nat in
   let r2High := Z.quot (w - Z.of_nat n1 * (Z.of_nat t0 - Z.of_nat n1)) (Z.of_nat t0 + Z.of_nat t1) in
-  zsum (fun r2 => choose (Z.of_nat t0) (Z.of_nat n1 - r2) * choose (Z.of_nat t1) r2) (zrange r2Low r2High).
+  zsum (base2_term t0 t1 n1) (seq r2Low (Z.to_nat (r2High + 1 - Z.of_nat r2Low))).
 
 (* A[k][{n1,twoU}] as the memo table defines it.  The table only stores keys inside
    [twoUmin, twoUmax] (udist.go:244); at fill time a missing key means 0 below the range and
@@ -151,7 +154,8 @@ Definition mass_table (N1 N2 : nat) (T : list nat) : list Z := nth N1 (rows N1 (
 Fixpoint cumsum (acc : Z) (p : list Z) : list Z :=
   match p with [] => [] | a :: p' => (acc + a) :: cumsum (acc + a) p' end.
 Definition coef (p : list Z) (v : Z) : Z := if v <? 0 then 0 else nth (Z.to_nat v) p 0.
-Definition cum_at (cs : list Z) (total : Z) (w : Z) : Z := if w <? 0 then 0 else nth (Z.to_nat w) cs total.
+(* cumulative count at w; beyond the end of the table it is the last (= total) value *)
+Definition cum_at (cs : list Z) (w : Z) : Z := if w <? 0 then 0 else nth (Z.to_nat w) cs (last cs 0).
 
 Definition fast_pmf (N1 N2 : nat) (T : list nat) (tbl : list Z) (tot : Z) (u : Q) : Q :=
   if Qltb u 0 || Qleb ((1 # 2) + QN (N1 * N2)) u then 0%Q
@@ -160,5 +164,5 @@ Definition fast_pmf (N1 N2 : nat) (T : list nat) (tbl : list Z) (tot : Z) (u : Q
 Definition fast_cdf (N1 N2 : nat) (T : list nat) (cs : list Z) (tot : Z) (u : Q) : Q :=
   if Qltb u 0 then 0%Q
   else if Qleb (QN (N1 * N2)) u then 1%Q
-  else if has_ties T then qcount (cum_at cs tot (Qfloor (2 * u))) tot
-  else qcount (cum_at cs tot (2 * Qfloor u)) tot.
+  else if has_ties T then qcount (cum_at cs (Qfloor (2 * u))) tot
+  else qcount (cum_at cs (2 * Qfloor u)) tot.
